@@ -353,7 +353,130 @@ pub fn run(ctx: &Ctx, rep: &Report) {
     rep.part("longitude:all-cells-of-all-59-bands×both-orders×representative-latitudes", total_lon_cells, json!({"worst_distance_to_cell_corner_m": (*worst_lon_m.lock().unwrap()*1000.0).round()/1000.0}));
     rep.outcome("lon:position-within-10m", total_lon_cells);
     drop(st);
+    pairs_through_decode_positions(ctx, rep);
     finish(rep, thorough);
+}
+
+/// The same law through the stateful entry point `decode_positions` (what jet1090 and decode1090 call): a fresh
+/// decoder, one aircraft, two reports encoded from one point. The pure function is the oracle for the second report;
+/// the first report alone, and a same-parity pair, must stay without a position; whatever position is attached must
+/// be within 10 m of the point. Dimensions: order of the pair, time base (negative, zero, small, Unix), gap inside
+/// the pairing window, receiver reference (none, near, far beyond the unambiguous range).
+fn pairs_through_decode_positions(ctx: &Ctx, rep: &Report) {
+    use crate::c06::{encode, templates};
+    let tp = templates(0x4840d6);
+    let te = airborne_template(false);
+    let to = airborne_template(true);
+    let mut pts: Vec<(f64, f64)> = Vec::new();
+    let mut lat = -89.9;
+    while lat < 89.95 {
+        for lon in [0.0005, 45.1, 179.999, -120.3] {
+            pts.push((lat, lon));
+        }
+        lat += 0.37;
+    }
+    let bases = [-86400.5f64, -5.0, 0.0, 1000.0, 1.7e9];
+    let gaps = [0.6f64, 9.5];
+    let cnt = AtomicU64::new(0);
+    let got_pos = AtomicU64::new(0);
+    par_items(ctx.threads, pts.len(), |i| {
+        let (lat, lon) = pts[i];
+        let (_, _, n1) = encode(lat, lon, false, false);
+        let (_, _, n2) = encode(lat, lon, true, false);
+        if n1 || n2 {
+            return;
+        }
+        let refs = stateful_refs(lat, lon);
+        for first_odd in [false, true] {
+            for second_odd in [false, true] {
+                for base in bases {
+                    for gap in gaps {
+                        for ri in 0..refs.len() {
+                            cnt.fetch_add(1, Ordering::Relaxed);
+                            if stateful_pair(&tp, &te, &to, lat, lon, first_odd, second_odd, base, gap, ri, rep) {
+                                got_pos.fetch_add(1, Ordering::Relaxed);
+                            }
+                        }
+                    }
+                }
+            }
+        }
+    });
+    let c = cnt.load(Ordering::Relaxed);
+    rep.eval(c);
+    rep.state(c);
+    rep.nontriv(got_pos.load(Ordering::Relaxed));
+    rep.part("pairs through decode_positions: order x time base x gap x reference", c, json!({"points": pts.len(), "time_bases_s": bases, "gaps_s": gaps, "pairs_with_position": got_pos.load(Ordering::Relaxed)}));
+    rep.outcome("stateful:pair-position", got_pos.load(Ordering::Relaxed));
+}
+
+#[allow(clippy::too_many_arguments)]
+fn stateful_pair(tp: &crate::c06::Templates, te: &AirbornePosition, to: &AirbornePosition, lat: f64, lon: f64, first_odd: bool, second_odd: bool, base: f64, gap: f64, ri: usize, rep: &Report) -> bool {
+    use crate::c06::{encode, make_msg, position_of};
+    use rs1090::decode::cpr::decode_positions;
+    use rs1090::decode::TimedMessage;
+    let (ye, xe, _) = encode(lat, lon, false, false);
+    let (yo, xo, _) = encode(lat, lon, true, false);
+    let (te, to) = (*te, *to);
+    let reference = stateful_refs(lat, lon)[ri];
+    let code = |odd: bool| if odd { (yo, xo) } else { (ye, xe) };
+    let (y1, x1) = code(first_odd);
+    let (y2, x2) = code(second_odd);
+    let mut msgs = vec![
+        TimedMessage { timestamp: base, frame: vec![], message: Some(make_msg(&tp, false, first_odd, y1, x1)), metadata: vec![], decode_time: None },
+        TimedMessage { timestamp: base + gap, frame: vec![], message: Some(make_msg(&tp, false, second_odd, y2, x2)), metadata: vec![], decode_time: None },
+    ];
+    let wit = json!({"kind": "decode_positions", "lat": lat, "lon": lon, "first_odd": first_odd, "second_odd": second_odd, "base": base, "gap": gap, "reference": ri});
+    set_case(4 | (1 << 8), lat.to_bits(), lon.to_bits(), base.to_bits());
+    let r = guarded(|| {
+        decode_positions(&mut msgs, reference, &None);
+        (msgs[0].message.as_ref().and_then(position_of), msgs[1].message.as_ref().and_then(position_of))
+    });
+    let (p1, p2) = match r {
+        Err(p) => {
+            rep.violation("stateful:panic", format!("decode_positions panicked: {p}"), wit);
+            return false;
+        }
+        Ok(x) => x,
+    };
+    let which = ["none", "near", "far"][ri];
+    for (k, p) in [p1, p2].iter().enumerate() {
+        if let Some((la, lo)) = p {
+            let d = haversine_m(lat, lon, *la, *lo);
+            if !(d <= TOL_M) {
+                rep.violation(&format!("stateful:wrong-position:reference-{which}"), format!("decode_positions (base {base} s, reference {which}): report {k} of a pair encoded at ({lat:.5},{lon:.5}) is given ({la:.5},{lo:.5}), {d:.0} m off"), wit.clone());
+            }
+        }
+    }
+    if first_odd == second_odd {
+        if p1.is_some() || p2.is_some() {
+            rep.violation(&format!("stateful:same-parity-position:reference-{which}"), format!("decode_positions (base {base} s, reference {which}): two reports of the same parity and nothing else: positions {p1:?} / {p2:?}"), wit.clone());
+        }
+        return false;
+    }
+    if p1.is_some() {
+        rep.violation(&format!("stateful:single-report-position:reference-{which}"), format!("decode_positions (base {base} s, reference {which}): the first report of an aircraft is given {p1:?} before any report of the other parity was seen"), wit.clone());
+    }
+    // the pure function on the same two reports (latest = second) is the oracle for the pair
+    let (mut e, mut o) = (te, to);
+    e.lat_cpr = ye;
+    e.lon_cpr = xe;
+    o.lat_cpr = yo;
+    o.lon_cpr = xo;
+    let want = if second_odd { airborne_position(&e, &o) } else { airborne_position(&o, &e) };
+    match (want, p2) {
+        (Some(_), None) => {
+            rep.violation(&format!("stateful:pair-without-position:base={}", if base < 0.0 { "negative" } else { "non-negative" }), format!("decode_positions (base {base} s, gap {gap} s, reference {which}): an even/odd pair from ({lat:.5},{lon:.5}) in one longitude band gets no position although airborne_position decodes it"), wit.clone());
+        }
+        (Some(_), Some(_)) => return true,
+        _ => {}
+    }
+    false
+
+}
+
+fn stateful_refs(lat: f64, lon: f64) -> [Option<Position>; 3] {
+    [None, Some(Position { latitude: (lat + 0.5).clamp(-89.0, 89.0), longitude: lon + 0.5 }), Some(Position { latitude: (lat - 12.0).clamp(-89.0, 89.0), longitude: lon + 14.0 })]
 }
 
 fn finish(rep: &Report, thorough: bool) {
@@ -377,7 +500,16 @@ pub fn replay(w: &Value, rep: &Report) {
     let te = airborne_template(false);
     let to = airborne_template(true);
     let u = lat_unit_deg(false);
-    let (a, b) = (w["a"].as_i64().unwrap(), w["b"].as_i64().unwrap());
+    if w["kind"].as_str() == Some("decode_positions") {
+        let tp = crate::c06::templates(0x4840d6);
+        stateful_pair(&tp, &te, &to, w["lat"].as_f64().unwrap_or(0.0), w["lon"].as_f64().unwrap_or(0.0), w["first_odd"].as_bool().unwrap_or(false), w["second_odd"].as_bool().unwrap_or(true), w["base"].as_f64().unwrap_or(0.0), w["gap"].as_f64().unwrap_or(0.6), w["reference"].as_u64().unwrap_or(0) as usize, rep);
+        rep.trans(1);
+        rep.state(1);
+        rep.sample(w.clone());
+        rep.outcome("replayed", 1);
+        return;
+    }
+    let (a, b) = (w["a"].as_i64().unwrap_or(0), w["b"].as_i64().unwrap_or(1));
     let latest_odd = w["latest_odd"].as_bool().unwrap_or(true);
     match w["kind"].as_str() {
         Some("lat") => {
